@@ -289,6 +289,14 @@ impl<'s, const M: usize> Exec<'s, M> {
 
     /// A request of (size, align) certainly fits in the space left (DESIGN §4).
     pub fn conservatively_fits(&self, size: usize, align: usize, cc: usize) -> bool {
+        if align <= M {
+            // the bump pointer is a multiple of MIN_ALIGN, so such a request fits exactly when its
+            // size rounded up to MIN_ALIGN does (no slack needed)
+            return match size.checked_add(M - 1) {
+                None => false,
+                Some(_) => round_up(size, M) <= cc,
+            };
+        }
         let a = align.max(M);
         match size.checked_add(a - 1) {
             None => false,
